@@ -980,7 +980,7 @@ def run(prop="C12", tier="quick"):
                     "%s can return at line %d with the denominator of %s %s (scenario: %s; the sign comes from %s, which the caller chooses "
                     "freely): a canonical rational has a positive denominator, and mpq_cmp, mpq_equal, mpq_get_d and the arithmetic "
                     "functions rely on it" % (fn["name"], detail["line"], ps[0]["name"], detail["bad"], detail["scenario"],
-                                              ", ".join(detail["sources"]) or "constants")))
+                                              ", ".join(detail["sources"]) or "a value that is definite on that path")))
     want = {"fix_sign_bad_inv": "refuted", "fix_sign_bad_div": "refuted", "fix_sign_good_inv": "proved", "fix_sign_good_div": "proved",
             "fix_sign_good_copytest": "proved", "fix_sign_good_square": "undecided", "fix_sign_bad_inplace": "refuted", "fix_sign_good_inplace": "proved"}
     if any(fxres.get(k) != v for k, v in want.items()):
@@ -1039,7 +1039,7 @@ def run_nonneg(prop, tier="quick"):
             res["findings"].append(Finding(
                 prop, "R-SIGN", path, detail["line"], name, "result-sign:%s:%s" % (oname, detail["bad"].replace(" ", "-")),
                 "%s can return at line %d with %s %s (scenario: %s; the sign comes from %s, which the caller chooses freely), but %s"
-                % (name, detail["line"], oname, detail["bad"], detail["scenario"], ", ".join(detail["sources"]) or "constants", text)))
+                % (name, detail["line"], oname, detail["bad"], detail["scenario"], ", ".join(detail["sources"]) or "a value that is definite on that path", text)))
     st = res["stats"]
     res["stats"] = dict(st)
     res["obligations"] = st["obligations"]
@@ -1055,3 +1055,166 @@ def run_c07(prop="C07", tier="quick"):
         raise AnalysisBroken("R-SIGN.c07: only %d of the non-negative results proved (floor 2; today 3): the sign algebra no longer understands the tree"
                              % st.get("proved", 0))
     return r
+
+
+# ---- "zero as 0/1" / integer denominators: a denominator whose size is set to the constant 1 gets its limb written -------------
+def analyse_den_one(fn, prop, F, stats):
+    """R-DENONE (C12): a function that stores the literal 1 into the size field of the denominator of a rational it was given also writes
+    the denominator's limbs on every path to its exit (the value 1 is size 1 AND limb 1; the size alone leaves whatever limb the
+    variable held, so 0/1 or n/1 silently becomes 0/d or n/d).  May-dataflow over (size-is-literal-1, limbs-written) pairs per path."""
+    qs = {p["id"]: p["name"] for p in fn["params"] if struct_of(p.get("ct")) == "__mpq_struct" and "*" in p.get("ct", "") and not p.get("pc")}
+    if not qs:
+        return
+    blocks = sa.blocks_by_id(fn)
+
+    def mentions_den_limbs(e, q, aliases):
+        hit = []
+
+        def f(n):
+            if n.get("k") == "member" and n["field"] == "_mp_d":
+                b = _strip(n.get("base"))
+                while isinstance(b, dict) and b.get("k") in ("unop", "index"):
+                    b = _strip(b.get("e") if b.get("k") == "unop" else b.get("base"))
+                if isinstance(b, dict) and b.get("k") == "member" and b["field"] == "_mp_den":
+                    bb = _strip(b.get("base"))
+                    while isinstance(bb, dict) and bb.get("k") in ("unop", "index"):
+                        bb = _strip(bb.get("e") if bb.get("k") == "unop" else bb.get("base"))
+                    if isinstance(bb, dict) and bb.get("k") == "var" and bb["id"] == q:
+                        hit.append(1)
+            if n.get("k") == "var" and n["id"] in aliases:
+                hit.append(1)
+        sa.walk(e, f)
+        return bool(hit)
+
+    def den_object(e, q):
+        """the expression names the denominator object of q (mpq_denref (q), &q->_mp_den)"""
+        e = _strip(e)
+        while isinstance(e, dict) and e.get("k") in ("unop", "index"):
+            e = _strip(e.get("e") if e.get("k") == "unop" else e.get("base"))
+        if isinstance(e, dict) and e.get("k") == "member" and e["field"] == "_mp_den":
+            bb = _strip(e.get("base"))
+            while isinstance(bb, dict) and bb.get("k") in ("unop", "index"):
+                bb = _strip(bb.get("e") if bb.get("k") == "unop" else bb.get("base"))
+            return isinstance(bb, dict) and bb.get("k") == "var" and bb["id"] == q
+        return False
+
+    for q, qname in qs.items():
+        # local limb pointers into the denominator (closure over every definition)
+        aliases = set()
+        changed = True
+        while changed:
+            changed = False
+            for b in fn["blocks"]:
+                for el in b["elems"]:
+                    def g(n):
+                        nonlocal changed
+                        if n.get("k") == "decl":
+                            for d in n["decls"]:
+                                if "init" in d and "*" in d["var"].get("ct", "") and d["var"]["id"] not in aliases \
+                                        and mentions_den_limbs(d["init"], q, aliases):
+                                    aliases.add(d["var"]["id"])
+                                    changed = True
+                        if n.get("k") == "binop" and n["op"] == "=":
+                            l = _strip(n["l"])
+                            if isinstance(l, dict) and l.get("k") == "var" and "*" in l.get("ct", "") and l["id"] not in aliases \
+                                    and mentions_den_limbs(n["r"], q, aliases):
+                                aliases.add(l["id"])
+                                changed = True
+                    sa.walk(el["e"], g)
+
+        def events(e):
+            """[('size', is literal 1) | ('limbs',)] of one CFG element"""
+            out = []
+            if e.get("k") == "call":
+                ps = e.get("params", [])
+                for i, a in enumerate(e.get("args", [])):
+                    if i < len(ps) and ps[i].get("pc"):
+                        continue
+                    if den_object(a, q):
+                        out.append(("size", False))
+                        out.append(("limbs",))
+                    elif isinstance(a, dict) and "*" in (ps[i].get("ct", "") if i < len(ps) else "*") and mentions_den_limbs(a, q, aliases):
+                        out.append(("limbs",))
+                    elif isinstance(_strip(a), dict) and _strip(a).get("k") == "var" and _strip(a)["id"] == q:
+                        out.append(("size", False))
+                        out.append(("limbs",))
+                return out
+            if e.get("k") == "binop" and e["op"].endswith("=") and e["op"] not in ("==", "!=", "<=", ">="):
+                l = _strip(e["l"])
+                if isinstance(l, dict) and l.get("k") == "member" and l["field"] == "_mp_size" and den_object(l.get("base"), q):
+                    r = _strip(e["r"])
+                    out.append(("size", e["op"] == "=" and isinstance(r, dict) and r.get("k") == "int" and r["v"] == 1))
+                elif isinstance(l, dict) and l.get("k") in ("index", "unop") and mentions_den_limbs(l, q, aliases):
+                    out.append(("limbs",))
+            if e.get("k") == "unop" and e["op"] in ("post++", "pre++", "post--", "pre--"):
+                l = _strip(e["e"])
+                if isinstance(l, dict) and l.get("k") == "member" and l["field"] == "_mp_size" and den_object(l.get("base"), q):
+                    out.append(("size", False))
+            return out
+
+        IN = collections.defaultdict(set)
+        IN[fn["entry"]] = {(False, False)}
+        work = {fn["entry"]}
+        sites, bad = [], {}
+        while work:
+            bid = max(work)
+            work.discard(bid)
+            b = blocks[bid]
+            cur = set(IN[bid])
+            for el in b["elems"]:
+                for ev in events(el["e"]):
+                    if ev[0] == "size":
+                        if ev[1] and el["line"] not in sites:
+                            sites.append(el["line"])
+                        cur = {(ev[1], l0) for (_s, l0) in cur}
+                    else:
+                        cur = {(s0, True) for (s0, _l) in cur}
+            if b.get("noreturn"):
+                continue
+            for s in b["succs"]:
+                if not isinstance(s, int):
+                    continue
+                if s == fn["exit"]:
+                    if (True, False) in cur:
+                        bad[b["elems"][-1]["line"] if b["elems"] else fn.get("endline", 0)] = True
+                    continue
+                if not cur <= IN[s]:
+                    IN[s] |= cur
+                    work.add(s)
+        stats["den_size_one_stores"] += len(sites)
+        for line in sorted(bad):
+            F.append(Finding(prop, "R-DENONE", fn["file"], line, fn["name"], "denominator-one-without-limb:%s" % qname,
+                             "%s can return at line %d after storing 1 into the size of the denominator of %s (line %s) without writing the "
+                             "denominator's limb on that path: the denominator keeps whatever limb the variable held, so the result is 0/d or "
+                             "n/d instead of the canonical 0/1 or n/1" % (fn["name"], line, qname, ", ".join(map(str, sites)))))
+
+
+def run_den_one(prop="C12", tier="quick"):
+    res = dict(findings=[], stats=collections.Counter(), samples=[], notes=[])
+    cfg = sa.cfg_built()
+    cfg = sa.Config("built-sign", units=cfg.units, flags=list(cfg.flags), extra_files=[FIXTURE])
+    ex = sa.export(cfg)
+    sa.check_errors(ex)
+    fx = []
+    for path, fn in ex.functions():
+        if path == FIXTURE:
+            if fn["name"].startswith("fix_denone_"):
+                analyse_den_one(fn, prop, fx, collections.Counter())
+            continue
+        if not fnmatch.fnmatch(relpath(path), "mpq/*.c"):
+            continue
+        before = res["stats"]["den_size_one_stores"]
+        analyse_den_one(fn, prop, res["findings"], res["stats"])
+        if res["stats"]["den_size_one_stores"] > before:
+            res["samples"].append(dict(rule="R-DENONE", function=fn["name"], file=relpath(path), stores=res["stats"]["den_size_one_stores"] - before))
+    got = collections.Counter(f.function for f in fx)
+    if not got.get("fix_denone_bad") or not got.get("fix_denone_bad_path") or got.get("fix_denone_good") or got.get("fix_denone_good_alias") \
+            or got.get("fix_denone_good_setui"):
+        raise AnalysisBroken("R-DENONE fixtures: %r" % dict(got))
+    if res["stats"]["den_size_one_stores"] < 4:
+        raise AnalysisBroken("R-DENONE: only %d literal-1 denominator size stores found (floor 4; today 7)" % res["stats"]["den_size_one_stores"])
+    res["stats"] = dict(res["stats"])
+    res["obligations"] = res["stats"]["den_size_one_stores"]
+    res["notes"].append("fixtures: 2 positive fired, 3 negative silent")
+    res["exhaustive"] = True
+    return res
